@@ -466,8 +466,8 @@ def parseZUnionStore (b : Base) : ParseOut :=
 /-! ### dispatch -/
 
 /-- the call `pkg.ParseXxx(b, extra...)` named by a row of the generated dispatch table -/
-def parseBy (fn : String) (extra : List String) (b : Base) : ParseOut :=
-  match fn, extra.map String.toInt? with
+def parseBy (fn : String) (extra : List Int) (b : Base) : ParseOut :=
+  match fn, extra with
   | "server.ParseOK", [] => parseOK b
   | "server.ParseConfig", [] => parseConfig b
   | "server.ParseDBSize", [] => parseDBSize b
@@ -478,8 +478,8 @@ def parseBy (fn : String) (extra : List String) (b : Base) : ParseOut :=
   | "conn.ParseSelect", [] => parseSelect b
   | "key.ParseDel", [] => parseDel b
   | "key.ParseExists", [] => parseExists b
-  | "key.ParseExpire", [some m] => parseExpire b m
-  | "key.ParseExpireAt", [some m] => parseExpireAt b m
+  | "key.ParseExpire", [m] => parseExpire b m
+  | "key.ParseExpireAt", [m] => parseExpireAt b m
   | "key.ParseFlushDB", [] => parseFlushDB b
   | "key.ParseKeys", [] => parseKeys b
   | "key.ParsePersist", [] => parsePersist b
@@ -503,13 +503,13 @@ def parseBy (fn : String) (extra : List String) (b : Base) : ParseOut :=
   | "list.ParseRPush", [] => parseRPush b
   | "string.ParseGet", [] => parseGet b
   | "string.ParseGetSet", [] => parseGetSet b
-  | "string.ParseIncr", [some s] => parseIncr b s
-  | "string.ParseIncrBy", [some s] => parseIncrBy b s
+  | "string.ParseIncr", [s] => parseIncr b s
+  | "string.ParseIncrBy", [s] => parseIncrBy b s
   | "string.ParseIncrByFloat", [] => parseIncrByFloat b
   | "string.ParseMGet", [] => parseMGet b
   | "string.ParseMSet", [] => parseMSet b
   | "string.ParseSet", [] => parseSet b
-  | "string.ParseSetEX", [some m] => parseSetEX b m
+  | "string.ParseSetEX", [m] => parseSetEX b m
   | "string.ParseSetNX", [] => parseSetNX b
   | "string.ParseStrlen", [] => parseStrlen b
   | "hash.ParseHDel", [] => parseHDel b
@@ -568,7 +568,7 @@ def lowerName (a : Bytes) : Option Bytes :=
   if a.all (· < 128) then some (a.map lowerAscii) else none
 
 /-- the row of `switch name` in `command.Parse`; `none` is the `default:` branch -/
-def lookupDispatch (name : Bytes) : Option (String × List String) :=
+def lookupDispatch (name : Bytes) : Option (String × List Int) :=
   (Generated.dispatch.find? (fun r => asciiBytes r.1 == name)).map (fun r => (r.2.1, r.2.2))
 
 /-- `command.Parse(args)` -/
